@@ -30,6 +30,37 @@ func cmdRace(args []string) {
 	fs.Parse(args)
 	runtime.GOMAXPROCS(16)
 	g := gen.New(*seed)
+	// cold start: the very first use of the package in this process is CONCURRENT Compile of lexically diverse texts
+	// (non-ASCII names, dotted / dashed names, long numbers, every token kind, namespace maps), so that anything the scanner,
+	// the parser or the builder builds lazily on first use is first touched by several goroutines at once
+	{
+		cold := []string{"//\u00e9", "//\u65e5\u672c/@\u5c5e\u6027", "a.b-c/d_e", "child::\u00e4[1]", "translate(a, '\u00e9', 'e')", "lower-case('\u00c9')",
+			"1.5 + .5 * 10 div 3 mod 2", "p:a/q:*", "concat('x', \"y\", 'z')", "//a[@b='1'][last()]/following-sibling::*[2] | /c//d",
+			"matches(a, '^\u00e9+$')", "replace(a, '(\u00e9)', '$1')", "string-join(//a, '\u00b7')", "-(-a) and not(b) or c != d",
+			"processing-instruction('x')", "ancestor-or-self::node()/comment()", "1e3", "$v", "a/(b, c)", "\U0001d11e"}
+		var wg sync.WaitGroup
+		start := make(chan struct{})
+		for i := 0; i < 12; i++ {
+			wg.Add(1)
+			go func(i int) {
+				defer wg.Done()
+				defer func() { recover() }()
+				<-start
+				for j := range cold {
+					t := cold[(i+j)%len(cold)]
+					if i%3 == 0 {
+						xpath.CompileWithNS(t, map[string]string{"p": "u1", "q": "u2"})
+					} else if i%3 == 1 {
+						xpath.CompileWithNS(t, map[string]string{"p": "u2"})
+					} else {
+						xpath.Compile(t)
+					}
+				}
+			}(i)
+		}
+		close(start)
+		wg.Wait()
+	}
 	exprs := []string{
 		"//b", "//b[ancestor::a]", "ancestor::a = ''", "following::*", "preceding::*", "//a | //b",
 		"(//b)[2]", "//b[2]", "//*[last()]", "(//b)[2] = '2'", "count(//b)", "string-join(//b, ',')",
